@@ -18,6 +18,7 @@ PROJECTION = "(introspected lists as contract ids, manual verdict, real outcome)
 ASSUMPTIONS = ["integrators supply the bound arguments by name (no _ARGS/_KWARGS in manually judged conditions)"]
 
 AW = {"T": 6, "F": 4}
+NEIGHBOURS = [{"from": "C03", "limit": 400, "why": "every invariant listed for a class is enforced on all member kinds"}]
 
 
 def _manualable(c):
